@@ -340,7 +340,9 @@ func (i *interpreter) runPath(fn *ssa.Function, job *Job) (kind, msg string) {
 	ex.ndIndex = map[string]int{}
 	ex.knownOn = ""
 	ex.opaqueQ = 0
-	if job.Sched != "" {
+	{
+		// a (deterministic) scheduler is always present: code under test may start goroutines
+		// even where the harness author did not expect any
 		i.sched = newScheduler(i, job.Sched == "sym", job.Preempt)
 		i.gstate = i.sched.gs[0]
 	}
